@@ -533,7 +533,10 @@ def mk_let(pat, e, body):
 
 def wrap(B, body):
     for kind, pat, e in reversed(B):
-        body = mk_bind(pat, e, body) if kind == "bind" else mk_let(pat, e, body)
+        if kind == "try":                       # `x?` on an Option/Result: e = (scrutinee text, term of the None/Err case)
+            body = ("match", e[0], [("Some %s" % pat[1], body), ("None", e[1])])
+        else:
+            body = mk_bind(pat, e, body) if kind == "bind" else mk_let(pat, e, body)
     return body
 
 def pp(t, ind=2):
@@ -567,6 +570,7 @@ GTYPE = {"vecn": "(list nat)", "usize": "nat", "isize": "Z", "elem": "(T A)", "b
          "poly": "(list (T A))", "unit": "unit", "lit": "nat"}
 LISTS = {"vec": "elem", "vecn": "usize"}          # list-like containers and the type of their elements
 def gtype(ty):
+    if isinstance(ty, tuple) and ty[0] == "sumty": return "SUMTYPE"
     if isinstance(ty, tuple) and ty[0] == "tuple": return "(" + " * ".join(gtype(x) for x in ty[1]) + ")"
     if isinstance(ty, tuple) and ty[0] == "opt": return "(option %s)" % gtype(ty[1])
     if ty in GTYPE: return GTYPE[ty]
@@ -766,7 +770,15 @@ class Translator:
             blk = e[1]
             if blk[1] or blk[2] is None: self.bad("block expression with statements")
             return self.ex(blk[2], env, B)
-        if k == "try": self.bad("`?` operator")
+        if k == "try":
+            t, ty = self.ex(e[1], env, B)
+            if not (isinstance(ty, tuple) and ty[0] == "opt"): self.bad("`?` on a value of type %s" % (ty,))
+            src = strip(e[1])
+            key = (self.place_type(src[1], env), src[2]) if src[0] == "mcall" else None
+            err = self.tb.TRY_ERR.get(key)
+            if err is None: self.bad("`?` on %s: no entry in TRY_ERR for the error it propagates" % (key,))
+            none_term = ("panic", err[6:]) if err.startswith("Panic ") else self.ctx.ret_raw(err)
+            v = self.fresh("d"); B.append(("try", ("v", v), (t, none_term))); return (v, ty[1])
         if k == "closure": self.bad("closure outside .iter().map(..).collect()")
         if k == "range": self.bad("range expression outside a `for` header / drain")
         if k == "path":
@@ -952,6 +964,15 @@ class Translator:
         if f[0] == "var": path = f[1]
         elif f[0] == "path": path = "::".join(f[1])
         else: self.bad("call of a computed function")
+        if path in ("Ok", "Err") and len(args) == 1 and self.spec.get("result_sum"):
+            if path == "Ok":
+                t, ty = self.ex(args[0], env, B)
+                return ("(inl %s)" % t, ("sum", ty))
+            a = strip(args[0])
+            if a[0] != "str": self.bad("Err(..) of something that is not a string literal")
+            for pat, ctor in self.spec["result_sum"]["errors"]:
+                if re.search(pat, a[1]): return ("(inr %s)" % ctor, ("sum", None))
+            self.bad("Err(%r): no constructor for this message in the table" % a[1])
         if path == "Some" and len(args) == 1:
             t, ty = self.ex(args[0], env, B)
             return ("(Some %s)" % self.lit(t, ty, "usize"), ("opt", "usize" if ty == "lit" else ty))
@@ -1309,7 +1330,49 @@ class Translator:
         return wrap(B, mk_bind(names_pat(names), loop, rest(env)))
 
     def while_stmt(self, s, env, rest):
-        self.bad("`while` loop (no fuel bound in the table)")
+        """while c { body }  with the fuel bound (and the out-of-fuel outcome) of the table entry of the function:
+           while_ret fuel (fun state => <c>; if c then body; WNext state else WDone state) state"""
+        self.nwhile = getattr(self, "nwhile", 0) + 1
+        wt = (self.spec.get("while") or {}).get(self.nwhile)
+        if wt is None: self.bad("`while` loop number %d: no fuel bound in the table" % self.nwhile)
+        cond, body = s[1], s[2]
+        def run(rec):
+            self.ctx = self.ctx.sub(record=rec, cont=lambda env2: g_ok(g_raw("tt")))
+            Bc = []; self.ex(cond, env, Bc)
+            self.block(body, env, lambda env2, v: g_ok(g_raw("tt")))
+        outer_ctx = self.ctx
+        saved_w = self.nwhile
+        M = self.assigned_in(run, env)
+        self.nwhile = saved_w
+        names = self.state_of(M)
+        nxt = g_ok(g_raw("(WNext %s)" % names_term(names)))
+        done = g_ok(g_raw("(WDone %s)" % names_term(names)))
+        inner_ret_raw = lambda t: g_ok(g_raw("(WRet %s)" % t))
+        self.ctx = outer_ctx.sub(ret=lambda env2, v: inner_ret_raw(self.assemble(env2, v)), cont=lambda env2: nxt, ret_raw=inner_ret_raw)
+        try:
+            Bc = []
+            c, tc = self.ex(cond, env, Bc)
+            if tc != "bool": self.bad("`while` condition of type %s" % (tc,))
+            bt = self.block(body, env, lambda env2, v: nxt)
+            self.nwhile = saved_w
+        finally:
+            self.ctx = outer_ctx
+        sty = gtype(("tuple", [v.ty for v in M])) if len(M) > 1 else (gtype(M[0].ty) if M else "unit")
+        inner = wrap(Bc, ("if", c, bt, done))
+        if len(M) > 1:
+            sv = self.fresh("s"); fun = ("fun", [(sv, sty)], mk_let(("tup", names), g_raw(sv), inner))
+        else:
+            fun = ("fun", [(names[0] if M else "_", sty)], inner)
+        fuel = wt["fuel"].format(**{v.name: v.g for v in env.visible()})
+        loop = ("app", "while_ret", [g_raw(fuel), fun, g_raw(names_term(names))])
+        for v in M: self.ctx.note(v)
+        o, r = self.fresh("o"), self.fresh("r")
+        exhaust = wt.get("on_exhaust", "Panic Guard")
+        ex_term = ("panic", exhaust[6:]) if exhaust.startswith("Panic ") else outer_ctx.ret_raw(exhaust)
+        return ("bind", ("v", o), loop,
+                ("match", o, [("Some (inl %s)" % (names_term(names) if names else "_"), rest(env)),
+                              ("Some (inr %s)" % r, outer_ctx.ret_raw(r)),
+                              ("None", ex_term)]))
 
     # ------------------------------------------------------------------ functions
     def function(self, fn, impl_header):
@@ -1343,7 +1406,12 @@ class Translator:
             for r in result:
                 if r == "ret":
                     if v is None: self.bad("missing return value")
-                    parts.append(self.lit(v[0], v[1], "usize")); tys.append(rty if v[1] == ("opt", "any") else ("usize" if v[1] == "lit" else v[1]))
+                    parts.append(self.lit(v[0], v[1], "usize"))
+                    if isinstance(v[1], tuple) and v[1][0] == "sum":
+                        if v[1][1] is not None: self.sum_left = v[1][1]
+                        tys.append(("sumty",))
+                    else:
+                        tys.append(rty if v[1] == ("opt", "any") else ("usize" if v[1] == "lit" else v[1]))
                 elif r.startswith("ret."):
                     comp = self.tuple_parts.get(v[0]) if v is not None else None
                     if comp is None: self.bad("the returned value is not a literal tuple (result component %s)" % r)
